@@ -148,6 +148,26 @@ Example C04_cap_small_needed :
   end.
 Proof. vm_compute. repeat split; reflexivity. Qed.
 
+(* ---- the tie to the source text (gen/SrcFill.v, regenerated on every run from schedule.py): the two greedy fill
+   loops, translated from their current source text, are the model's [fwd_shift] / [bwd_shift] for all inputs - same
+   rows in the same order, same date - so the conservation and date clauses above, which are stated about these two
+   model functions through fwd_compute / bwd_compute, hold of the loops as written (vocabulary: Props_C03.v) *)
+From Coq Require Import QArith.
+From PJ Require Import Cal.Calendar gen.SrcFill Sched.SrcFillEquiv Sched.SrcFillInv.
+Open Scope Z_scope.
+
+Theorem C04_src_fwd_shift : forall cfg l r t s0 left, pos_rows l -> 0 <= left ->
+  src_fwd_shift (balance cfg) (nearest_of (cap cfg r) (h_search cfg)) (gau_of (cap cfg r)) r (qrows_of l) s0 t
+                (inject_Z left) (Z.of_nat (h_fill cfg))
+  = lift_shift (fwd_shift cfg l r t s0 left).
+Proof. exact src_fwd_shift_eq. Qed.
+
+Theorem C04_src_bwd_shift : forall cfg l r t e0 left, pos_rows l -> 0 <= left ->
+  src_bwd_shift (balance cfg) (nearest_of (cap cfg r) (h_search cfg)) (gau_of (cap cfg r)) r (qrows_of l) e0 t
+                (inject_Z left) (Z.of_nat (h_fill cfg))
+  = lift_shift (bwd_shift cfg l r t e0 left).
+Proof. exact src_bwd_shift_eq. Qed.
+
 Print Assumptions C04_forward.
 Print Assumptions C04_backward.
 Print Assumptions C04_conserve_once.
@@ -162,3 +182,5 @@ Print Assumptions C04_harness_capacities.
 Print Assumptions C04_all_calculated.
 Print Assumptions C04_example.
 Print Assumptions C04_cap_small_needed.
+Print Assumptions C04_src_fwd_shift.
+Print Assumptions C04_src_bwd_shift.
